@@ -212,6 +212,18 @@ PROPS["C06"] = {
     "assumptions": H2_ASSUME,
 }
 
+PROPS["C12"] = {
+    "engine": "h3",
+    "level": "exploration",
+    "budget": {"quick": 45, "thorough": 600},
+    "runs_per_proc": 40,
+    "technique": "deterministic simulation of 2-3 metadata state machines (same engine as C06) applying one committed sequence of consumer-group operations: joins, leaves, expiries, coordinator changes, stream deletions and re-creations over <=4 members, 3 streams, 1-5 partitions, with overlapping subscriptions; seeded map-iteration order, apply schedules, snapshots and restarts; assignment oracle evaluated on every node whenever the cluster is settled",
+    "level_text": "seeded exploration over operation orders; oracle from the statement: every partition of every subscribed stream has exactly one owner who subscribed to it, nobody owns a partition of a stream they did not subscribe to (or that no longer exists), single-stream groups are balanced within one, and nodes with the same group epoch hand out identical assignments (including nodes rebuilt from a snapshot)",
+    "level_note": "member expiry is exercised as the committed leave operation it results in; the liveness timers themselves need a coordinator that is a real server and are outside this engine; map ranges over string keys are visited in a seeded permutation so that order dependence shows",
+    "rule": "programs of 8-38 (thorough -98) generated steps; distinct = distinct event-log hash; non-trivial = >=2 joins committed",
+    "assumptions": H2_ASSUME,
+}
+
 NOT_APPLICABLE = [
     {"property_id": pid, "reason": "check not built yet in this round (engine under construction); see DESIGN.md section 9 build order"}
     for pid in ["C%02d" % i for i in range(1, 20)] if pid not in PROPS
